@@ -202,6 +202,11 @@ fn fillings(free: usize, len: usize, per_slot: bool) -> Vec<Vec<Plant>> {
 
 pub fn c04_check<const N: usize>(o: &Opts, rep: &mut Report) {
     rep.notes.push(format!("N={} {}", N, calib::<N>().note));
+    // constructors are operations too: what a freshly built buffer presents must be live elements only, for every
+    // source length and every size_hint shape of the source iterator (correct, loose and incorrect ones)
+    if o.shard.0 == 0 {
+        ctor_checks::<N>("C04", rep);
+    }
     // (c) fine-key BFS with the convergence differential
     let mut sigs: HashMap<usize, (u64, usize)> = HashMap::new(); // representative index -> (signature, newcomers compared)
     let mut pending: Vec<(usize, Recipe)> = vec![];
@@ -214,6 +219,15 @@ pub fn c04_check<const N: usize>(o: &Opts, rep: &mut Report) {
             // garbage must never be touched on any explored transition
             for b in bad_events(tr) {
                 record(rep, N, &st.recipe, &[], act, None, &pb(PKind::BadEvent, b), "history-garbage");
+            }
+            // what the buffer presents after the call must be live elements that nobody else owns: a position showing
+            // an element that was moved out to the caller (or destroyed) is a slot without a live element being read
+            if tr.rec.post.ok {
+                for p in balance(&tr.rec) {
+                    if matches!(p.kind, PKind::Duplicate | PKind::DeadReachable) {
+                        record(rep, N, &st.recipe, &[], act, None, &p, "history-ownership");
+                    }
+                }
             }
         };
         let mut dup = |ix: usize, r: &Recipe| {
@@ -371,6 +385,9 @@ pub fn c04_check<const N: usize>(o: &Opts, rep: &mut Report) {
 }
 
 pub fn replay_c04<const N: usize>(c: &Case) -> Result<i32, String> {
+    if c.act == "ctor-only" {
+        return crate::checks::replay_bfs::<N>(c);
+    }
     if c.fault != "none" && !c.fault.is_empty() {
         let mut c5 = Case { prop: "C05".into(), n: c.n, ctor: c.ctor.clone(), recipe: c.recipe.clone(), filling: c.filling.clone(), act: c.act.clone(), fault: c.fault.clone(), extra: c.extra.clone() };
         c5.prop = "C05".into();
